@@ -1,12 +1,15 @@
 import GeffModel.MetaProto
+import GeffModel.ValidatorsProto
 open Lean Geff Geff.Meta Geff.Meta.Wire
 
 /-- requests
 * `{"op":"run","env":…,"init":…,"ops":[…]}` → `{"init":out, "obj"?:obs, "steps":[{"out":…, obs…}]}`
 * `{"op":"valid","env":…,"dump":J}` → the specification evaluated on an observed `model_dump()`
-* `{"op":"axes","env":…, names/units/types/scales/scaled_units/offset/roi_min/roi_max}` → `axes_from_lists` -/
+* `{"op":"axes","env":…, names/units/types/scales/scaled_units/offset/roi_min/roi_max}` → `axes_from_lists`
+* `{"op":"genval","kind":…}` → a source-translated validator body (`GeffModel/ValidatorsProto.lean`) -/
 def handle (j : Json) : Except String Json := do
   let op ← (← j.getObjVal? "op").getStr?
+  if op = "genval" then return ← handleGenval j
   let env ← toEnv (← j.getObjVal? "env")
   if op = "run" then
     let init ← toInit (← j.getObjVal? "init")
